@@ -76,27 +76,44 @@ def gen_masks(rng, m, n):
 
 
 # ------------------------------------------------------------------------------------------------
-def run_engine(engine, circuit, m, n, masks):
-    """All observable outputs of one engine on one circuit, as plain python data (or an error)."""
+_LONG_LIVED = {}
+
+
+def run_engine(engine, circuit, m, n, masks, reuse=False, order=None):
+    """All observable outputs of one engine on one circuit, as plain python data (or an error).
+    reuse=True: the same engine object serves every case of the run (different circuits, sizes and photon
+    numbers), and `order` lists the input states to submit (with repeats; a repeated state is submitted through
+    the `all_prob(input_state)` signature without a prior set_input_state)."""
     import perceval as pcvl
     from perceval.backends import NaiveBackend, SLOSBackend, SLAPBackend, MPSBackend
     from perceval.simulators.stepper import Stepper
     states = all_states(m, n)
     out = {"amp": {}, "prob": {}, "dist": {}, "allprob": {}, "evolve": {}, "cross": {}}
     if engine == "Stepper":
-        st = Stepper(SLOSBackend())
+        if reuse:
+            st = _LONG_LIVED.setdefault("Stepper", Stepper(SLOSBackend()))
+        else:
+            st = Stepper(SLOSBackend())
         st.set_circuit(circuit)
-        for s in states:
+        for s in (order or states):
             sv = st.evolve(pcvl.BasicState(s))
             out["evolve"][tuple(s)] = {tuple(k): complex(v) for k, v in sv}
         return out
-    b = {"Naive": NaiveBackend, "SLOS": SLOSBackend, "SLAP": SLAPBackend, "MPS": MPSBackend}[engine]()
+    cls = {"Naive": NaiveBackend, "SLOS": SLOSBackend, "SLAP": SLAPBackend, "MPS": MPSBackend}[engine]
+    b = _LONG_LIVED.setdefault(engine, cls()) if reuse else cls()
     if engine == "MPS":
         b.set_cutoff(max(2, (n + 1) ** m))   # full bond dimension (the backend caps it at d^(m//2))
     b.set_circuit(circuit)
     if masks:
         b.set_mask(masks, n)
-    for s in states:
+    seen = set()
+    for s in (order or states):
+        if reuse and tuple(s) in seen:
+            # re-submitted input: bulk signature that takes the input state itself
+            out["allprob"][tuple(s)] = [float(x) for x in b.all_prob(pcvl.BasicState(s))]
+            out["dist"][tuple(s)] = [(tuple(k), float(v)) for k, v in b.prob_distribution().items()]
+            continue
+        seen.add(tuple(s))
         b.set_input_state(pcvl.BasicState(s))
         if not masks:
             out["amp"][tuple(s)] = [complex(b.prob_amplitude(pcvl.BasicState(t))) for t in states]
@@ -195,7 +212,7 @@ def oracle_pamp(u, s, t):
     return numpy_perm(u[np.ix_(rows, cols)]) if rows else 1.0
 
 
-def one_case(chk, spec, n, engine, masks):
+def one_case(chk, spec, n, engine, masks, reuse=False, order=None):
     m = spec["m"]
     states = all_states(m, n)
     try:
@@ -225,11 +242,11 @@ def one_case(chk, spec, n, engine, masks):
             if len(r["states"]) < len(states):
                 chk.branch("mask-drops-states")
     try:
-        obs = run_engine(engine, circuit, m, n, masks)
+        obs = run_engine(engine, circuit, m, n, masks, reuse=reuse, order=order)
     except Exception as e:
-        sig = f"{engine}-raises-{type(e).__name__}"
+        sig = f"{engine}-raises-{type(e).__name__}" + ("-reused-instance" if reuse else "")
         return [("violation", sig, f"{engine} raised {type(e).__name__}: {str(e)[:150]} on a legal circuit/input",
-                 {"spec": spec, "n": n, "engine": engine, "masks": masks})]
+                 {"spec": spec, "n": n, "engine": engine, "masks": masks, "reuse": reuse, "order": order})]
     bad = compare(engine, obs, states, table, masked_rows, masks)
     out = []
     for sig, what, det in bad:
@@ -241,7 +258,8 @@ def one_case(chk, spec, n, engine, masks):
             i, j = states.index(list(s)), states.index(list(t))
             confirmed = core.close(expected_amp(oracle_pamp(u, s, t), s, t), expected_amp(table[i][j], s, t), 1e-7)
         kind = "violation" if confirmed else "broken"
-        out.append((kind, f"{engine}-{sig}", what, {"spec": spec, "n": n, "engine": engine, "masks": masks, **det}))
+        out.append((kind, f"{engine}-{sig}" + ("-reused-instance" if reuse else ""), what,
+                    {"spec": spec, "n": n, "engine": engine, "masks": masks, "reuse": reuse, "order": order, **det}))
     return out
 
 
@@ -260,7 +278,7 @@ def run(chk: core.Check):
                 "distinct (engine, m, n, circuit signature, masks); non-trivial = circuit has >= 2 components and n >= 2")
     chk.assumptions = ["the circuit's matrix is the one compute_unitary() reports (C01/C14 cover it)",
                        "native kernels of exqalibur are external: the model for them is the specification itself"]
-    chk.required_branches = ["mask", "mask-drops-states", "bunched-input", "engine:Naive", "engine:SLOS",
+    chk.required_branches = ["mask", "mask-drops-states", "bunched-input", "reused-instance", "stepper-perm-not-involution", "engine:Naive", "engine:SLOS",
                              "engine:SLAP", "engine:MPS", "engine:Stepper"]
     chk.lean = core.LeanDriver("C02")
     rng = chk.rng
@@ -274,11 +292,35 @@ def run(chk: core.Check):
         for engine in ENGINES:
             two = engine == "MPS"
             spec = gen_circuit_spec(rng, m, rng.randint(2, chk.pick(6, 10)), two)
+            if engine == "Stepper" and m >= 3:
+                # the step-by-step simulator has its own PERM shortcut: make sure permutations that are not their
+                # own inverse (a cycle of length >= 3) are exercised
+                w = rng.randint(3, m)
+                perm = list(range(w))
+                while all(perm[perm[i]] == i for i in range(w)):
+                    rng.shuffle(perm)
+                spec["comps"].insert(rng.randint(0, len(spec["comps"])), [rng.randint(0, m - w), {"t": "PERM", "perm": perm}])
+                chk.branch("stepper-perm-not-involution")
             masks = [] if (engine == "Stepper" or rng.random() < 0.5 or n == 0) else gen_masks(rng, m, n)
             handle(chk, spec, n, engine, masks)
+    # long-lived engine objects: one instance per engine serves circuits of changing size and photon number, with
+    # inputs re-submitted out of order (the amplitudes must not depend on what the object served before)
+    history = []
+    for i in range(chk.pick(8, 40)):
+        m, n = rng.choice([(2, 1), (2, 2), (3, 1), (3, 2), (3, 3), (4, 2), (2, 3), (4, 1)])
+        for engine in ENGINES:
+            spec = gen_circuit_spec(rng, m, rng.randint(1, 5), engine == "MPS")
+            states = all_states(m, n)
+            order = list(states)
+            rng.shuffle(order)
+            order = order + [rng.choice(states) for _ in range(3)]
+            rng.shuffle(order)
+            history.append((spec, n, engine, order))
+    for spec, n, engine, order in history:
+        handle(chk, spec, n, engine, [], reuse=True, order=order)
 
 
-def handle(chk, spec, n, engine, masks):
+def handle(chk, spec, n, engine, masks, reuse=False, order=None):
     m = spec["m"]
     chk.branch("engine:" + engine)
     if n >= 2:
@@ -286,8 +328,16 @@ def handle(chk, spec, n, engine, masks):
     chk.count("size", f"m{m}n{n}")
     for _, leaf in spec["comps"]:
         chk.count("leaf_kind", leaf["t"])
-    res = one_case(chk, spec, n, engine, masks)
-    sig = (engine, m, n, json.dumps(spec["comps"], sort_keys=True), tuple(masks))
+    if reuse:
+        chk.branch("reused-instance")
+    res = one_case(chk, spec, n, engine, masks, reuse=reuse, order=order)
+    if reuse and res:
+        # the same case on a fresh object tells a history effect from a plain wrong amplitude (both are violations)
+        fresh = one_case(chk, spec, n, engine, masks)
+        if not fresh:
+            res = [(k, s_, w + " [a freshly constructed engine gives the right values: the result depends on "
+                    "what the object served before]", r) for k, s_, w, r in res]
+    sig = (engine, m, n, json.dumps(spec["comps"], sort_keys=True), tuple(masks), reuse)
     chk.case(sig, nontrivial=(len(spec["comps"]) >= 2 and n >= 2),
              sample={"engine": engine, "m": m, "n": n, "masks": masks,
                      "comps": [(o, l["t"]) for o, l in spec["comps"]]})
@@ -296,7 +346,7 @@ def handle(chk, spec, n, engine, masks):
         if s in seen:
             continue
         seen.add(s)
-        if kind == "violation" and len(spec["comps"]) > 1:
+        if kind == "violation" and len(spec["comps"]) > 1 and not reuse:
             try:
                 small = shrink_case(chk, spec, n, engine, masks, s)
                 replay = dict(replay, spec=small)
@@ -315,4 +365,12 @@ def replay(chk, data):
     chk.lean = core.LeanDriver("C02")
     chk.rule = "replay of one stored case"
     r = data["replay"]
-    handle(chk, r["spec"], r["n"], r["engine"], r.get("masks") or [])
+    if r.get("reuse"):
+        # a long-lived-engine failure depends on the whole history: re-run the run it came from (same seed and tier)
+        import random
+        chk.lean.close()
+        chk.lean = None
+        chk.rng = random.Random(data.get("seed", 0))
+        chk.tier = data.get("tier", "quick")
+        return run(chk)
+    handle(chk, r["spec"], r["n"], r["engine"], r.get("masks") or [], order=r.get("order"))
